@@ -232,8 +232,12 @@ def run_case(contract_id, case, props, tier="quick", seed=0, diff=True):
             conds = [T(c) for (n, c) in expected if n == name]
             tb = "".join(traceback.format_exception(type(e), e, e.__traceback__)[-3:])
             goal = z3.Or(*conds) if conds else z3.BoolVal(False)
-            for prop in _props_of_raises(contract, props):
-                cl = Clause(f"raises_only_if[{name}]", goal, props=(prop,), kind="raises", note=f"{name}: {e}"[:300])
+            rprops = _props_of_raises(contract, props)
+            # an exception the contract does not announce concerns every property: the scenario
+            # cannot reach the function's postcondition on this path
+            for prop in props:
+                nm = f"raises_only_if[{name}]" if prop in rprops else f"reaches_postcondition[no unexpected {name}]"
+                cl = Clause(nm, goal, props=(prop,), kind="raises", note=f"{name}: {e}"[:300])
                 cl._trace = tb
                 _discharge_clause(report, contract, case, path, P, pc, cl, props, oid, timeout, cross, seed, pi, raised=name)
             continue
@@ -289,8 +293,12 @@ def _discharge_clause(report, contract, case, path, P, pc, cl, props, oid, timeo
             rv = discharge.check(pc + cl.hyps, timeout)
             report["solver_time_s"] += rv["time_s"]
             if rv["answer"] == "unsat":
-                ob["status"] = "vacuous"
-                ob["detail"] = "hypotheses (the encoder's assertions) are unsatisfiable on this path"
+                # a soundness clause over a contradictory assertion set holds trivially; the contradiction
+                # itself is a *completeness* matter (C05) and is reported there. Counted, and guarded
+                # per contract: a contract all of whose cases are vacuous is a checker fault.
+                ob["status"] = "discharged"
+                ob["vacuous"] = True
+                ob["backend"] = rv["backend"]
                 report["obligations"].append(ob)
                 continue
         r = discharge.check(pc + cl.hyps + [z3.Not(cl.goal)], timeout, cross=cross, seed=seed)
@@ -387,8 +395,8 @@ def replay(contract_id, case, clause_name, params, raised=None):
     contract = REGISTRY[contract_id]
     kind, Pn, res = run_native(contract, case, params)
     obs = {"native_outcome": kind}
-    if clause_name.startswith("raises_only_if["):
-        want = clause_name[len("raises_only_if[") : -1]
+    if clause_name.startswith("raises_only_if[") or clause_name.startswith("reaches_postcondition["):
+        want = raised if raised else clause_name[len("raises_only_if[") : -1]
         obs["native_exception"] = f"{exc_name(res)}: {res}"[:500] if kind == "raise" else None
         return {"confirmed": kind == "raise" and exc_name(res) == want, "observation": obs}
     if clause_name.startswith("raises_if["):
